@@ -46,6 +46,20 @@ def run(repo, res, tier):
         elif lin == "N":
             res.undecided.append(f"LINEARITY-UNDECIDED class={r['entry']} field={r['field']}: degree 1 but the derivation uses a nonlinear "
                                  "decomposition of the excitation (magnitude/angles); truly linear or not is not visible to the lattice")
+    # sums/stores/comparisons that combine different powers of the excitation (a term lost or gained an excitation factor)
+    import re
+    seen = set()
+    for r in results:
+        for fd in r["findings"]:
+            if fd.kind not in ("add-mismatch", "store-mismatch", "join-mismatch", "cmp-mismatch", "abs-offset"):
+                continue
+            ds = re.findall(r"D\(([^)]*)\)", fd.msg)
+            xs = [re.search(r"X(\^(-?[\d/]+))?", d) for d in ds]
+            px = [("0" if m is None else (m.group(2) or "1")) for m in xs]
+            if len(px) >= 2 and len(set(px[:2])) > 1 and fd.key() not in seen:
+                seen.add(fd.key())
+                res.add(Finding("excitation-mismatch", fd.module + ".py", fd.func, fd.node,
+                                f"combines terms of different degree in the excitation ({fd.msg}): the result is not linear", getattr(fd.node, "lineno", None)))
     if errors and not res.findings:
         raise AnalysisError("construct outside the modelled fragment: " + " | ".join(errors[:3]))
     res.notes += errors
